@@ -10,6 +10,7 @@ ASSUMPTIONS = MP.ASSUMPTIONS
 TIMEOUTS = {"quick": (300, 30), "thorough": (1200, 60)}
 BOUNDS = MP.bounds
 params = MU.params
+TWIN_REQUIRED = False  # many shards cannot be refused at all; the evidence counts the twins reached
 
 
 def shards(tier):
